@@ -21,6 +21,16 @@ START_NEW = ("cp = NULL; if (pgno >= 0x100 && pgno <= 0x8FF) { cp = page_by_pgno
              "if (NULL != cp) cp = cache_page_ref (cp); } ps = cache_network_page_stat (cn, pgno);")
 TURN_OLD = "search->stop_subno[0] = (search->start_subno == VBI_ANY_SUBNO) ? 0 : search->start_subno;"
 TURN_NEW = "search->stop_subno[0] = search->start_subno;"
+# line anchors (finding C17-D8 / repair fixes/C17-line-anchors.diff): the URE_NOTBOL flag of the two page callbacks
+FWD_OLD = ("*hp++ = acp->unicode; flags = URE_NOTBOL; } *hp++ = SEPARATOR; flags = 0; } if (first >= hp) return 0; "
+           "if (!ure_exec(s->ud, flags, first, hp - first, &ms, &me))")
+FWD_NEW = ("*hp++ = acp->unicode; } *hp++ = SEPARATOR; } if (first >= hp) return 0; "
+           "if (first > s->haystack && first[-1] != SEPARATOR) flags = URE_NOTBOL; "
+           "if (!ure_exec(s->ud, flags, first, hp - first, &ms, &me))")
+REV_OLD = "if (!ure_exec(s->ud, (pos > 0) ? (flags | URE_NOTBOL) : flags, s->haystack + pos, hp - s->haystack - pos, &ms1, &me1))"
+REV_NEW = ("if (!ure_exec(s->ud, (pos > 0 && s->haystack[pos - 1] != SEPARATOR) ? (flags | URE_NOTBOL) : flags, "
+           "s->haystack + pos, hp - s->haystack - pos, &ms1, &me1))")
+REV_POS = "pos = (me > pos) ? me : pos + 1;"
 
 
 def body(path, name):
@@ -30,6 +40,27 @@ def body(path, name):
         raise SystemExit("gen_search: %s not found in %s" % (name, path))
     b = re.sub(r"/\*.*?\*/", " ", m.group(0), flags=re.S)
     return re.sub(r"\s+", " ", b)
+
+
+def anchors(repo=None):
+    """-> lineAnchors: search_page_fwd / search_page_rev compute URE_NOTBOL from the character in front of the text
+    they hand to ure_exec (fixes/C17-line-anchors.diff); False = as found (C17-D8).  Unknown or half-applied = error.
+    The ure.c half of that diff is read by translate/gen_ure.py; checks/C17.py refuses one half without the other."""
+    repo = repo or REPO
+    f = body(os.path.join(repo, "src", "search.c"), "search_page_fwd")
+    r = body(os.path.join(repo, "src", "search.c"), "search_page_rev")
+    fo, fn = FWD_OLD in f, FWD_NEW in f
+    ro, rn = REV_OLD in r, REV_NEW in r
+    if fo == fn:
+        raise SystemExit("gen_search: flags of the ure_exec call in search_page_fwd not recognised")
+    if ro == rn:
+        raise SystemExit("gen_search: flags of the ure_exec call in search_page_rev not recognised")
+    if REV_POS not in r or "flags = URE_NOTEOL; } *hp++ = SEPARATOR; flags = 0; }" not in r:
+        raise SystemExit("gen_search: search_page_rev: URE_NOTEOL bookkeeping / `pos` rule (b5116c9) not recognised")
+    if fn != rn:
+        raise SystemExit("gen_search: half-applied fixes/C17-line-anchors.diff (search_page_fwd %s, search_page_rev %s)"
+                         % ("repaired" if fn else "as found", "repaired" if rn else "as found"))
+    return fn
 
 
 def flags(repo=None):
@@ -52,6 +83,7 @@ def flags(repo=None):
 
 def main():
     sn, tn = flags()
+    an = anchors()
     text = "\n".join([
         "-- GENERATED by translate/gen_search.py from src/cache.c, src/search.c - do not edit",
         "namespace Zvbi.Gen.Search", "",
@@ -61,6 +93,10 @@ def main():
         "/-- vbi_search_next, direction change: stop_subno[0] = start_subno;",
         "    false = (start_subno == VBI_ANY_SUBNO) ? 0 : start_subno -/",
         "def turnStopKeepsSubno : Bool := %s" % ("true" if tn else "false"),
+        "/-- search_page_fwd / search_page_rev hand ure_exec URE_NOTBOL iff the text begins inside a row",
+        "    (`first[-1] != SEPARATOR`, `haystack[pos - 1] != SEPARATOR`); false = search_page_fwd always 0,",
+        "    search_page_rev URE_NOTBOL for every pos > 0 (finding C17-D8) -/",
+        "def lineAnchors : Bool := %s" % ("true" if an else "false"),
         "", "end Zvbi.Gen.Search", ""])
     old = open(OUT).read() if os.path.exists(OUT) else None
     if old != text:
